@@ -201,6 +201,8 @@ pub trait Interface: ErrorHandler {
     
         let mut proc_offset = 0;
         let mut read_offset = 0;
+        // A message that does not fit into the buffer is discarded up to its terminator.
+        let mut discarding = false;
     
         loop {
             #[cfg(microscpi_verif)]
@@ -215,6 +217,15 @@ pub trait Interface: ErrorHandler {
                 .position(|b| *b == b'\n')
             {
                 let terminator_pos = read_offset + position;
+
+                // This is the end of a message whose beginning has been discarded.
+                if discarding {
+                    discarding = false;
+                    proc_offset = terminator_pos + 1;
+                    read_offset = proc_offset;
+                    continue;
+                }
+
                 let data = &cmd_buf[proc_offset..=terminator_pos];
 
                 // The newline is part of a string or a block: do not execute the first
@@ -257,6 +268,7 @@ pub trait Interface: ErrorHandler {
                 #[cfg(feature = "defmt")]
                 defmt::warn!("SCPI buffer overflow, resetting buffer");
                 read_offset = 0;
+                discarding = true;
             }
         }
     }
